@@ -10,9 +10,9 @@ PERSISTED = ["PublishAtLeastOnce", "PublishExactlyOnce", "PublishAtLeastOnceReta
 # which scenario families serve which property, and which clause prefixes a property owns
 FAMILIES = {
     "C01": ["out", "restart"], "C02": ["restart"], "C03": ["out", "restart"], "C04": ["in", "inrestart"],
-    "C05": ["out", "restart"], "C07": ["in"], "C10": ["connect", "req", "out"], "C11": ["req", "close"],
+    "C05": ["out", "restart"], "C07": ["in"], "C10": ["connect", "req", "out", "in", "in"], "C11": ["req", "close"],
     "C12": ["close"], "C13": ["hostile"], "C16": ["damage"], "C17": ["out", "restart", "req"],
-    "C18": ["connect", "out"], "C14": ["req", "close", "out", "connect"], "C08": ["req", "out"],
+    "C18": ["connect", "connect", "out"], "C14": ["req", "close", "out", "connect"], "C08": ["req", "out"],
 }
 OWNS = {p: [p + "_"] for p in FAMILIES}
 OWNS["C13"] += ["C01_NoForgedCompletion", "C03_RelForUnknown"]
@@ -51,9 +51,17 @@ def fam_restart(rnd, i, thorough, damage=False, inbound=False):
     b = fam_out(rnd, i, thorough)
     b["id"] = ("damage-%d" if damage else "restart-%d") % i
     gens = []
-    for g in range(rnd.choice([1, 1, 2])):
+    q2heavy = rnd.random() < 0.4
+    if q2heavy:
+        for pr in b["procs"].values():
+            for op in pr.get("ops", []):
+                op["m"] = "PublishExactlyOnce"
+        b["cfg"]["emax"] = 4
+        b["random"]["faults"] = rnd.choice([0, 0, 1])
+    for g in range(2 if q2heavy else rnd.choice([1, 1, 2])):
         procs = {"rd%d" % (g + 2): {"kind": "reader"}}
-        ops = [{"m": rnd.choice(PERSISTED[:2]), "tag": 100 * (g + 1) + k + 1, "size": 8} for k in range(rnd.choice([0, 1, 2]))]
+        ops = [{"m": "PublishExactlyOnce" if q2heavy else rnd.choice(PERSISTED[:2]), "tag": 100 * (g + 1) + k + 1, "size": 8}
+               for k in range(rnd.choice([1, 2]) if q2heavy else rnd.choice([0, 1, 2]))]
         if ops:
             procs["v%d" % (g + 2)] = {"kind": "script", "ops": ops}
         gens.append(procs)
@@ -95,27 +103,33 @@ def fam_close(rnd, i, thorough):
             ops.append({"m": rnd.choice(["Publish", "Ping", "PublishAtLeastOnce", "Subscribe", "Close", "Disconnect"]),
                         "tag": 900 + c, "size": 8, "filters": ["late"], "quit": "nil"})
         b["procs"]["c%d" % (c + 1)] = {"kind": "script", "ops": ops}
+    if rnd.random() < 0.6:   # Close issued at a chosen gate of the others and run to completion
+        b["random"]["burst"] = {"p": "c1", "at": rnd.randrange(0, 90)}
+    if rnd.random() < 0.3:
+        b["cfg"]["lazyexch"] = True
     return b
 
 
 def fam_in(rnd, i, thorough, restart=False):
-    b = fam_req(rnd, i, thorough) if rnd.random() < 0.3 else {"cfg": {"amax": 2, "emax": 2}, "procs": {"rd": {"kind": "reader"}},
+    b = fam_req(rnd, i, thorough) if rnd.random() < 0.6 else {"cfg": {"amax": 2, "emax": 2}, "procs": {"rd": {"kind": "reader"}},
                                                              "epilogue": "drain", "random": {"seed": 0, "max": 400}}
     b["id"] = ("inrestart-%d" if restart else "in-%d") % i
-    b["random"].update({"seed": rnd.randrange(1 << 30), "faults": rnd.choice([0, 1, 2]), "pwrite": 0.1, "pdial": 0.05,
-                        "pstore": 0.05, "pbreak": 0.08, "pstall": 0.05,
-                        "inbound": [{"qos": rnd.choice([0, 1, 2, 2]), "tag": 500 + k, "size": rnd.choice([8, 8, 100])}
-                                    for k in range(rnd.choice([1, 2, 3]))]})
+    b["random"].update({"seed": rnd.randrange(1 << 30), "faults": rnd.choice([0, 1, 2, 3]), "pwrite": 0.25, "pdial": 0.05,
+                        "pstore": 0.05, "pbreak": 0.08, "pstall": 0.15,
+                        "inbound": [{"qos": rnd.choice([0, 1, 2, 2, 2]), "tag": 500 + k, "size": rnd.choice([8, 8, 100])}
+                                    for k in range(rnd.choice([1, 2, 3, 4, 6]))]})
     if restart:
         b["random"].update({"gens": [{"rd2": {"kind": "reader"}}], "pstop": 0.03, "pstore": 0.0})
     return b
 
 
 def fam_connect(rnd, i, thorough):
-    b = fam_req(rnd, i, thorough) if rnd.random() < 0.5 else fam_out(rnd, i, thorough)
+    b = fam_req(rnd, i, thorough)
+    if rnd.random() < 0.7:  # pending transfers to resend, next to the requests
+        b["procs"]["v1"] = {"kind": "script", "ops": [{"m": rnd.choice(PERSISTED[:2]), "tag": 50 + k, "size": 8} for k in range(rnd.choice([1, 2]))]}
     b["id"] = "connect-%d" % i
     b["cfg"]["clean"] = rnd.random() < 0.5
-    b["random"].update({"faults": rnd.choice([1, 2, 3, 4]), "pdial": 0.4, "pwrite": 0.15, "pbreak": 0.15})
+    b["random"].update({"faults": rnd.choice([1, 2, 3, 4]), "pdial": 0.3, "pwrite": 0.3, "pbreak": 0.15, "pstore": 0.1})
     return b
 
 
@@ -179,7 +193,7 @@ def tlc_behaviours(ctx, name, cap):
 def behaviours(ctx, families):
     rnd = random.Random(ctx.seed * 7919 + vlib.stable_hash(ctx.prop))
     thorough = ctx.tier != "quick"
-    per = (2400 if thorough else 480) // max(1, len(families))
+    per = (3600 if thorough else 720) // max(1, len(families))
     res = []
     for f in families:
         if f not in GEN:
@@ -228,7 +242,9 @@ def execute_and_judge(ctx, binary, behs, confirm=True):
         for cid, items in badcases.items():
             for clause, seq in sorted(items, key=lambda x: x[1]):
                 if clause.startswith("Harness_"):
-                    raise vlib.Inconclusive("harness misbehaved (%s) in %s" % (clause, sb[cid - 1]["id"]))
+                    ctx.save_replay("harness-%s-%s.json" % (clause, sb[cid - 1]["id"]), {"behaviour": sb[cid - 1], "clause": clause, "event_seq": seq})
+                    ctx.cov["harness_anomalies"] = ctx.cov.get("harness_anomalies", 0) + 1
+                    continue
                 if any(clause.startswith(o) for o in owns):
                     found.append((clause, sb[cid - 1], tp, cid, seq))
         ctx.cov["traces_validated_against_impl"] += len(sb) - len([c for c in badcases])
